@@ -1,6 +1,41 @@
+/-
+Helper lemmas for `Bolt.Props.C04BktTx` (a whole transaction = composition of the per-call
+theorems): the reference model refuses a `Put` with invalid arguments on every non-root path.
+-/
 import Bolt.Lemmas.BktGet
 import Bolt.Lemmas.BktCommit
 namespace Bolt.Bkt.BktTxL
 open Bolt Bolt.BTree Bolt.Bkt
+
+/-- `Put` with an empty key, too long a key or too long a value is an error in the reference
+    model, whatever the (non-root) path -/
+theorem apiPut_invalid (root : SVal) (a : Bytes) (p : List Bytes) (k v : Bytes)
+    (h : k = [] ∨ k.length > maxKeySize ∨ v.length > maxValueSize) :
+    ∃ e, apiPut root (a :: p) k v = .error e := by
+  unfold apiPut
+  cases bucketAt (a :: p) root with
+  | none => exact ⟨_, rfl⟩
+  | some se =>
+    obtain ⟨s, e⟩ := se
+    simp only [List.isEmpty_cons, Bool.false_eq_true, if_false]
+    by_cases h1 : k.isEmpty = true
+    · simp only [h1, if_true]; exact ⟨_, rfl⟩
+    · simp only [h1]
+      by_cases h2 : k.length > maxKeySize
+      · simp only [h2, if_true]; exact ⟨_, rfl⟩
+      · simp only [h2, if_false]
+        by_cases h3 : v.length > maxValueSize
+        · simp only [h3, if_true]; exact ⟨_, rfl⟩
+        · exfalso
+          rcases h with h | h | h
+          · subst h; exact h1 rfl
+          · exact h2 h
+          · exact h3 h
+
+/-- an `isSome` option has a value -/
+theorem isSome_get {α : Type} {o : Option α} (h : o.isSome = true) : ∃ b, o = some b := by
+  cases o with
+  | none => cases h
+  | some b => exact ⟨b, rfl⟩
 
 end Bolt.Bkt.BktTxL
